@@ -199,7 +199,9 @@ def child_kmers(pk, rng, n, R, ktmon, work):
             R.violate("py.core_failed", "core failed on this input: %s" % exp, case)
             continue
         try:
-            got = [tuple(x) for x in pk.KmerGenerator(s, k)]
+            # the documented signature (pykmertools.pyi) names the parameters: keyword calls must work too
+            gen = pk.KmerGenerator(seq=s, ksize=k) if R.evaluations % 3 == 0 else pk.KmerGenerator(s, k)
+            got = [tuple(x) for x in gen]
         except BaseException as e:  # noqa: BLE001
             R.violate("py.kmers.exception", "KmerGenerator raised %r" % (e,), case)
             continue
@@ -239,7 +241,8 @@ def child_min(pk, rng, n, R, ktmon, work):
             R.violate("py.core_failed", "core failed on this input: %s" % exp, case)
             continue
         try:
-            got = [tuple(x) for x in pk.MinimiserGenerator(s, w, m)]
+            gen = pk.MinimiserGenerator(seq=s, wsize=w, msize=m) if R.evaluations % 3 == 0 else pk.MinimiserGenerator(s, w, m)
+            got = [tuple(x) for x in gen]
         except BaseException as e:  # noqa: BLE001
             R.violate("py.min.exception", "MinimiserGenerator raised %r" % (e,), case)
             continue
@@ -274,8 +277,8 @@ def child_oligo(pk, rng, n, R, ktmon, work):
             continue
         try:
             if k not in comps:
-                comps[k] = pk.OligoComputer(k)
-            got = comps[k].vectorise_one(s, norm)
+                comps[k] = pk.OligoComputer(ksize=k) if k % 2 else pk.OligoComputer(k)
+            got = comps[k].vectorise_one(seq=s, norm=norm) if R.evaluations % 3 == 0 else comps[k].vectorise_one(s, norm)
             got_default = comps[k].vectorise_one(s) if norm else None
         except BaseException as e:  # noqa: BLE001
             R.violate("py.oligo.exception", "OligoComputer raised %r" % (e,), case)
@@ -342,11 +345,11 @@ def child_cgr(pk, rng, n, R, ktmon, work):
         R.case(len(s) > 0, (s, S))
         case = {"seq": s, "S": S}
         if S not in comps:
-            comps[S] = pk.CgrComputer(S)
+            comps[S] = pk.CgrComputer(vecsize=S) if S % 2 else pk.CgrComputer(S)
         bad = refmodel.cgr_exact(s, S, 0) is None
         R.cls("bad-nucleotide" if bad else "nucleotide")
         try:
-            got = comps[S].vectorise_one(s)
+            got = comps[S].vectorise_one(seq=s) if R.evaluations % 3 == 0 else comps[S].vectorise_one(s)
             raised = None
         except ValueError as e:
             got, raised = None, e
@@ -392,7 +395,12 @@ def child_batch(pk, rng, n, R, ktmon, work):
         case = {"what": "OligoComputer.vectorise_batch", "k": k, "norm": norm, "size": size, "threads": threads, "first": [short(s, 40) for s in seqs[:3]]}
         try:
             oc = pk.OligoComputer(k)
-            got = oc.vectorise_batch(seqs, norm)
+            got = oc.vectorise_batch(seqs=seqs, norm=norm) if size % 2 else oc.vectorise_batch(seqs, norm)
+            if norm and size:
+                # norm defaults to True
+                if [list(v) for v in oc.vectorise_batch(seqs)] != [list(v) for v in got]:
+                    R.violate("py.batch.default_norm", "vectorise_batch(seqs) differs from vectorise_batch(seqs, True)", case)
+                    continue
             exp = [oc.vectorise_one(s, norm) for s in seqs]
         except BaseException as e:  # noqa: BLE001
             R.violate("py.batch.exception", "vectorise_batch raised %r" % (e,), case)
@@ -409,7 +417,7 @@ def child_batch(pk, rng, n, R, ktmon, work):
         case = {"what": "CgrComputer.vectorise_batch", "S": S, "size": size, "threads": threads, "first": nseqs[:3]}
         try:
             cc = pk.CgrComputer(S)
-            got = cc.vectorise_batch(nseqs)
+            got = cc.vectorise_batch(seqs=nseqs) if size % 2 else cc.vectorise_batch(nseqs)
             exp = [cc.vectorise_one(s) for s in nseqs]
         except BaseException as e:  # noqa: BLE001
             R.violate("py.batch.exception", "CGR vectorise_batch raised %r" % (e,), case)
